@@ -65,6 +65,40 @@ func (e *expr) strands(acc map[int][]Item) [][]Item {
 	panic("bad expr")
 }
 
+// occ: how many strands the reader has, and (added to m) at how many places of them each source
+// value occurs, copies counted: one key per pipe (whatever it will be sent), one per array item value;
+// conversions are taken as the identity (an over-estimate: used to keep the cases within what the
+// model's interleaving check can decide quickly, see genConc).
+func (e *expr) occ(m map[string]int) int {
+	switch e.kind {
+	case "pipe":
+		m["p"+itoa(e.hp)]++
+		return 1
+	case "arr":
+		for _, v := range e.xs {
+			m["a"+itoa(int(v))]++
+		}
+		return 1
+	default:
+		n := 0
+		for _, s := range e.sub {
+			n += s.occ(m)
+		}
+		return n
+	}
+}
+
+func itoa(n int) string {
+	if n == 0 {
+		return "0"
+	}
+	var b []byte
+	for ; n > 0; n /= 10 {
+		b = append([]byte{byte('0' + n%10)}, b...)
+	}
+	return string(b)
+}
+
 // bound: an upper bound on the number of items a reader with this derivation can receive.
 func (e *expr) bound(wlen map[int]int) int {
 	switch e.kind {
